@@ -1,13 +1,129 @@
-/- C10 — first layer; see DESIGN.md §5 -/
+/- C10 — paragraph independence (`C10_slice*`) and the single-paragraph API agrees with the multi-paragraph API
+   (`C10_single*`); see DESIGN.md §5 -/
 import UBidi.Model.Reorder
 import UBidi.Spec.UAX9
 import UBidi.Spec.Reorder
+import UBidi.Lemmas.C10
+import UBidi.Lemmas.C10Slice
 namespace UBidi.Props.C10
-open UBidi
+open UBidi UBidi.Lemmas.C10
 
-/-- the analysis of the empty text is empty and does not fail -/
-theorem empty_text (ds : DataSource) (d : Option Nat) :
-    (bidiInfo ds (Text.ofScalars []) d).levels = [] ∧ (bidiInfo ds (Text.ofScalars []) d).err = none := by
-  constructor <;> rfl
+/-- for a text that is one paragraph (no B, or only as its last character) the single-paragraph type
+    (`ParagraphBidiInfo`) reports what the multi-paragraph type (`BidiInfo`) reports: same classes, same
+    levels, same panic behaviour, and the one paragraph of `BidiInfo` is `[0, len)` at the paragraph level
+    of `ParagraphBidiInfo`.
+
+    The line queries of the two types — `reorderedLevels`, `reorderedLevelsPerChar`, `visualRunsForLine`,
+    `reorderLine` — are the *same* Model functions applied to `(t, classes, levels, paraLevel, line)`;
+    since those arguments agree, line levels, visual runs and reordered lines agree as well
+    (`congrArg`, no further proof needed). -/
+theorem C10_single (ds : DataSource) (t : Text) (hwf : t.WF) (hne : 0 < t.len) (d : Option Nat)
+    (hB : ∀ s ∈ t.segs.dropLast, ds.cls s.cp ≠ .B) :
+    let b := bidiInfo ds t d; let p := paragraphBidiInfo ds t d
+    b.classes = p.classes ∧ b.levels = p.levels ∧ b.paras = [{ start := 0, stop := t.len, level := p.paraLevel }] ∧ b.err = p.err := by
+  obtain ⟨h1, h2, h3, h4, h5⟩ := cii_single ds t hwf hne d hB
+  simp only [bidiInfo, paragraphBidiInfo, h1, h2, h3, h4, List.zip_cons_cons, List.zip_nil_right,
+    List.foldl_cons, List.foldl_nil, subrange_full t hwf, slice_zero_of_length_le _ _ (Nat.le_of_eq h5),
+    List.nil_append]
+  simp
+
+/-- the consequence spelled out for one line query: reordering a line gives the same result through either type -/
+theorem C10_single_reorder_line (ds : DataSource) (t : Text) (hwf : t.WF) (hne : 0 < t.len) (d : Option Nat)
+    (hB : ∀ s ∈ t.segs.dropLast, ds.cls s.cp ≠ .B) (a b : Nat) :
+    let bi := bidiInfo ds t d; let p := paragraphBidiInfo ds t d
+    ∃ para, bi.paras = [para] ∧
+      reorderLine t bi.classes bi.levels para.level a b = reorderLine t p.classes p.levels p.paraLevel a b ∧
+      reorderedLevels t bi.classes bi.levels para.level a b = reorderedLevels t p.classes p.levels p.paraLevel a b ∧
+      visualRunsForLine bi.levels a b = visualRunsForLine p.levels a b := by
+  obtain ⟨h1, h2, h3, _⟩ := C10_single ds t hwf hne d hB
+  exact ⟨_, h3, by rw [h1, h2], by rw [h1, h2], by rw [h2]⟩
+
+/- non-vacuity: "aא(1)" followed by U+2029 (class B, three UTF-8 code units) with the built-in tables meets the
+   hypotheses; `Lemmas.C10.ofScalars_WF` shows every `&str` is well-formed.  Its levels are [0,1,1,1,2,1,0,0,0]. -/
+example : let t := Text.ofScalars [0x61, 0x5D0, 0x28, 0x31, 0x29, 0x2029]
+    t.WF ∧ 0 < t.len ∧ ∀ s ∈ t.segs.dropLast, hardcoded.cls s.cp ≠ .B :=
+  ⟨ofScalars_WF _, by decide, by decide +kernel⟩
+/- test (literal): the hypothesis on B cannot be dropped — with a B in the middle the two types differ -/
+example : (bidiInfo hardcoded (Text.ofScalars [0x5D0, 0x0A, 0x61]) none).levels ≠
+    (paragraphBidiInfo hardcoded (Text.ofScalars [0x5D0, 0x0A, 0x61]) none).levels := by decide +kernel
+
+/-! ### paragraph independence -/
+
+/-- Analysing the substring of a paragraph alone gives what the whole-text analysis gives for that paragraph:
+    for every paragraph `p` that `BidiInfo` reports for a well-formed text, `ParagraphBidiInfo` of
+    `text[p.range]` (same default level) has the classes and the levels of `BidiInfo` restricted to `p.range`
+    and the paragraph level recorded in `p`; if the whole-text analysis does not panic, neither does the
+    paragraph's.  (Proof: the scanner state after a B equals the initial state — paraLevel := default, empty
+    isolate stack, flags reset —, so the scan of the rest simulates the scan of the rest alone shifted by
+    `para_start` (`Lemmas.C10.sim_step`); `compute_bidi_info_for_para` only sees the slices.) -/
+theorem C10_slice (ds : DataSource) (t : Text) (hwf : t.WF) (d : Option Nat) (p : ParaInfo)
+    (hp : p ∈ (bidiInfo ds t d).paras) :
+    let b := bidiInfo ds t d; let q := paragraphBidiInfo ds (t.subrange p.start p.stop) d
+    q.classes = slice b.classes p.start p.stop ∧ q.levels = slice b.levels p.start p.stop ∧
+    q.paraLevel = p.level ∧ (b.err = none → q.err = none) := by
+  have hgood := (paras_good ds t hwf d).1
+  rw [bidiInfo_eq] at hp ⊢
+  simp only at hp ⊢
+  obtain ⟨f, hpf, ⟨hw, g0, g1, g2, g3, g4, g5⟩, _⟩ := parasFrom_mem hgood p hp
+  obtain ⟨_, l2, _, l3⟩ := levels_fold ds t d _ _ t.len _ _ 0 hgood ([], (computeInitialInfo ds t d true).err) rfl
+  obtain ⟨l4, l5⟩ := l3 p f hpf
+  simp only [paragraphBidiInfo, g1, g2, g3, g4]
+  refine ⟨trivial, l4.symm, trivial, fun hn => ?_⟩
+  rw [g5 (l2 hn), l5 hn]; rfl
+
+/-- panics are per paragraph: the whole-text analysis is panic-free exactly when the analysis of every
+    paragraph's substring alone is -/
+theorem C10_slice_err (ds : DataSource) (t : Text) (hwf : t.WF) (d : Option Nat) :
+    (bidiInfo ds t d).err = none ↔
+      ∀ p ∈ (bidiInfo ds t d).paras, (paragraphBidiInfo ds (t.subrange p.start p.stop) d).err = none := by
+  constructor
+  · intro h p hp
+    exact (C10_slice ds t hwf d p hp).2.2.2 h
+  · intro h
+    obtain ⟨hgood, herr⟩ := paras_good ds t hwf d
+    rw [bidiInfo_eq] at h ⊢
+    simp only at h ⊢
+    obtain ⟨_, _, l3, _⟩ := levels_fold ds t d _ _ t.len _ _ 0 hgood ([], (computeInitialInfo ds t d true).err) rfl
+    have key : ∀ p f, (p, f) ∈ (computeInitialInfo ds t d true).paras.zip (computeInitialInfo ds t d true).flags →
+        (computeInitialInfo ds (t.subrange p.start p.stop) d false).err = none ∧
+        (paraLevels ds p.level f.pureLtr f.hasIso (t.subrange p.start p.stop)
+          (slice (computeInitialInfo ds t d true).classes p.start p.stop)).2 = none := by
+      intro p f hpf
+      obtain ⟨hw, g0, g1, g2, g3, g4, g5⟩ := parasFrom_zip_mem hgood p f hpf
+      have := h p (List.of_mem_zip hpf).1
+      simp only [paragraphBidiInfo, g1, g2, g3, g4] at this
+      exact (orErr_eq_none _ _).mp this
+    exact l3 (herr (fun p f hpf => (key p f hpf).1)) (fun p f hpf => (key p f hpf).2)
+
+/-- the same with the multi-paragraph type on the substring (DESIGN.md: `restrict (bidiInfo text dir) p =
+    bidiInfo (text[p.range]) dir`): it reports one paragraph `[0, p.stop - p.start)` at `p`'s level, and the
+    classes and levels of the whole-text result restricted to `p.range` -/
+theorem C10_slice_multi (ds : DataSource) (t : Text) (hwf : t.WF) (d : Option Nat) (p : ParaInfo)
+    (hp : p ∈ (bidiInfo ds t d).paras) :
+    let b := bidiInfo ds t d; let b' := bidiInfo ds (t.subrange p.start p.stop) d
+    b'.classes = slice b.classes p.start p.stop ∧ b'.levels = slice b.levels p.start p.stop ∧
+    b'.paras = [{ start := 0, stop := p.stop - p.start, level := p.level }] ∧ (b.err = none → b'.err = none) := by
+  obtain ⟨c1, c2, c3, c4⟩ := C10_slice ds t hwf d p hp
+  have hgood := (paras_good ds t hwf d).1
+  have hp' : p ∈ (computeInitialInfo ds t d true).paras := hp
+  obtain ⟨f, hpf, ⟨hw, g0, _⟩, hlt⟩ := parasFrom_mem hgood p hp'
+  have hlen : (t.subrange p.start p.stop).len = p.stop - p.start := rfl
+  obtain ⟨s1, s2, s3, s4⟩ := C10_single ds (t.subrange p.start p.stop) hw (by rw [hlen]; omega) d g0
+  exact ⟨s1.trans c1, s2.trans c2, by rw [s3, c3, hlen], fun h => s4.trans (c4 h)⟩
+
+/- Not covered: the *line* queries on the paragraph substring versus the whole text.  They are the same Model
+   functions applied to the restricted fields, but their results carry absolute code-unit positions (runs,
+   `Seg.start` of the pieces), so the statement would be "equal up to a shift by `p.start`"; it needs
+   `slice`-of-`slice` / `subrange`-of-`subrange` lemmas and a shift lemma for `visualRunsForLine`. -/
+
+/- non-vacuity: "א RLI ␊ a(ב) PS 1" (an unclosed isolate before the first separator, U+2029 as second separator)
+   has three paragraphs; the middle one, [6,14) at level 0, is a member of `paras`.
+   Test (literal): its levels alone are the whole-text levels [1,1,1,1,1,1, 0,0,1,1,0,0,0,0, 0] restricted to [6,14). -/
+example : ({ start := 6, stop := 14, level := 0 } : ParaInfo) ∈
+    (bidiInfo hardcoded (Text.ofScalars [0x5D0, 0x2067, 0x0A, 0x61, 0x28, 0x5D1, 0x29, 0x2029, 0x31]) none).paras := by
+  decide +kernel
+example : (paragraphBidiInfo hardcoded
+      ((Text.ofScalars [0x5D0, 0x2067, 0x0A, 0x61, 0x28, 0x5D1, 0x29, 0x2029, 0x31]).subrange 6 14) none).levels =
+    [0, 0, 1, 1, 0, 0, 0, 0] := by decide +kernel
 
 end UBidi.Props.C10
